@@ -1,7 +1,1060 @@
-//! C01 — TODO
-use mc_core::Ctx;
+//! C01 — multi-signature soundness: accepted aggregates carry a real stake quorum.
+//!
+//! Bounded exhaustive input enumeration on the real verifier. For every configuration of a small
+//! lattice (parties × stake splits × parameters × messages) the honest single signatures are
+//! produced by the real signers, base aggregates are built (by the real clerk for every signer
+//! subset, and by hand: un-deduplicated lists, hand-made cross-signature index collisions), and
+//! every value reachable from a base by ≤ d structural mutations is put on the wire (JSON text,
+//! versioned CBOR bytes, legacy byte layout written by a harness-side encoder), decoded by the
+//! real decoders and handed to `AggregateSignature::verify`. Single signatures take the same
+//! route into `SingleSignature::verify`; pools of accepted and rejected values (plus pairs whose
+//! sigmas are shifted by ±j·G) go into `AggregateSignature::batch_verify` as all ordered pairs /
+//! triples over several (message, key) contexts.
+//!
+//! Oracle (soundness only): accepted ⇒ the statement of the property holds for the decoded value,
+//! judged by `mc-ref` (blst directly, Blake2b dense mapping, exact interval-arithmetic lottery) and
+//! by set membership in the registration the harness built. Batch accepted ⇒ every member is
+//! accepted alone and satisfies the statement. Honest aggregates must be accepted.
 
-pub fn run(_ctx: &Ctx) -> ! {
-    eprintln!("C01: not implemented");
-    std::process::exit(2)
+use std::collections::{BTreeMap, BTreeSet};
+
+use blake2::digest::{Digest, consts::U32};
+use mc_core::{Ctx, Report, Tier, par_map};
+use mithril_stm::{AggregateSignature, Parameters, SingleSignature, VerificationKeyForConcatenation};
+use serde_json::{Value, json};
+
+use crate::world::*;
+
+type H256 = blake2::Blake2b<U32>;
+
+fn h256(parts: &[&[u8]]) -> Vec<u8> {
+    let mut h = H256::new();
+    for p in parts {
+        h.update(p);
+    }
+    h.finalize().to_vec()
+}
+
+// ---------------------------------------------------------------------------------------------
+// a tiny independent Merkle tree (to build batch paths for hand-made aggregates and to re-derive
+// the root the aggregate key must commit to)
+// ---------------------------------------------------------------------------------------------
+
+struct MiniTree {
+    nodes: Vec<Vec<u8>>,
+    n: usize,
+}
+
+impl MiniTree {
+    /// leaves in slot order: Blake2b-256(vk ‖ stake_be)
+    fn new(w: &World) -> MiniTree {
+        let n = w.parties.len();
+        let mut by_slot: Vec<&Party> = w.parties.iter().collect();
+        by_slot.sort_by_key(|p| p.slot);
+        let np2 = n.next_power_of_two();
+        let num = n + np2 - 1;
+        let z = h256(&[&[0u8]]);
+        let mut nodes = vec![vec![]; num];
+        for (i, p) in by_slot.iter().enumerate() {
+            nodes[np2 - 1 + i] = h256(&[&p.vk, &p.stake.to_be_bytes()]);
+        }
+        for i in (0..np2 - 1).rev() {
+            let l = if 2 * i + 1 < num { nodes[2 * i + 1].clone() } else { z.clone() };
+            let r = if 2 * i + 2 < num { nodes[2 * i + 2].clone() } else { z.clone() };
+            nodes[i] = h256(&[&l, &r]);
+        }
+        MiniTree { nodes, n }
+    }
+    fn root(&self) -> &[u8] {
+        &self.nodes[0]
+    }
+    /// sibling hashes needed to open the (sorted) leaf set, bottom-up, left to right
+    fn batch_path(&self, slots: &[u64]) -> Vec<Vec<u8>> {
+        let off = self.n.next_power_of_two() - 1;
+        let mut idx: Vec<usize> = slots.iter().map(|s| *s as usize + off).collect();
+        let mut out = vec![];
+        while !idx.is_empty() && idx[0] > 0 {
+            let mut next = vec![];
+            let mut i = 0;
+            while i < idx.len() {
+                let me = idx[i];
+                let sib = if me % 2 == 1 { me + 1 } else { me - 1 };
+                next.push((me - 1) / 2);
+                if i + 1 < idx.len() && idx[i + 1] == sib {
+                    i += 1;
+                } else if sib < self.nodes.len() {
+                    out.push(self.nodes[sib].clone());
+                }
+                i += 1;
+            }
+            idx = next;
+        }
+        out
+    }
+}
+
+// ---------------------------------------------------------------------------------------------
+// context of one (configuration, message)
+// ---------------------------------------------------------------------------------------------
+
+struct Adversary {
+    sk: blst::min_sig::SecretKey,
+    vk: Vec<u8>,
+}
+
+impl Adversary {
+    fn new() -> Adversary {
+        let sk = blst::min_sig::SecretKey::key_gen(&[0xADu8; 32], &[]).expect("keygen");
+        let vk = sk.sk_to_pk().to_bytes().to_vec();
+        Adversary { sk, vk }
+    }
+    fn sign(&self, bytes: &[u8]) -> Vec<u8> {
+        self.sk.sign(bytes, &[], &[]).to_bytes().to_vec()
+    }
+}
+
+struct MCtx<'a> {
+    w: &'a World,
+    r: &'a Reference,
+    msg: Vec<u8>,
+    other: Vec<u8>,
+    honest: Vec<Option<CSig>>,
+    honest_other: Vec<Option<CSig>>,
+    tree: MiniTree,
+    adv: Adversary,
+}
+
+pub fn messages() -> (Vec<u8>, Vec<u8>) {
+    (b"mithril-verif message A".to_vec(), b"another message (B), longer than the first one".to_vec())
+}
+
+impl<'a> MCtx<'a> {
+    fn new(w: &'a World, r: &'a Reference, msg: &[u8], other: &[u8]) -> MCtx<'a> {
+        let n = w.parties.len();
+        MCtx {
+            w,
+            r,
+            msg: msg.to_vec(),
+            other: other.to_vec(),
+            honest: (0..n).map(|i| w.honest(i, msg)).collect(),
+            honest_other: (0..n).map(|i| w.honest(i, other)).collect(),
+            tree: MiniTree::new(w),
+            adv: Adversary::new(),
+        }
+    }
+
+    /// full winning list of the registered party that owns `vk` (empty for unknown keys)
+    fn won_by_key(&self, vk: &[u8]) -> Vec<u64> {
+        self.w
+            .parties
+            .iter()
+            .position(|p| p.vk == vk)
+            .and_then(|i| self.honest[i].as_ref())
+            .map(|s| s.indexes.clone())
+            .unwrap_or_default()
+    }
+
+    /// hand-built aggregate: the given entries in slot order with the genuine batch path
+    fn hand_built(&self, mut entries: Vec<CSig>) -> Cand {
+        entries.sort_by_key(|e| e.slot);
+        let slots: Vec<u64> = entries.iter().map(|e| e.slot).collect();
+        Cand { path_values: self.tree.batch_path(&slots), path_indices: slots, sigs: entries }
+    }
+
+    /// base aggregates: (name, value, honest?, explored to full depth?)
+    fn bases(&self) -> Vec<(String, Cand, bool, bool)> {
+        let n = self.w.parties.len();
+        let mut out: Vec<(String, Cand, bool, bool)> = vec![];
+        let full_mask: u32 = (0..n).filter(|i| self.honest[*i].is_some()).map(|i| 1u32 << i).sum();
+        for mask in 1u32..(1 << n) {
+            let members: Vec<usize> = (0..n).filter(|i| mask & (1 << i) != 0 && self.honest[*i].is_some()).collect();
+            if members.len() != (mask.count_ones() as usize) {
+                continue;
+            }
+            let sigs: Vec<SingleSignature> =
+                members.iter().map(|i| decode_single_json(self.honest[*i].as_ref().unwrap()).expect("honest decodes")).collect();
+            if let Ok(a) = self.w.aggregate(&sigs, &self.msg) {
+                out.push((format!("clerk{members:?}"), aggregate_to_cand(&a).expect("aggregate json"), true, mask == full_mask));
+            }
+            let entries: Vec<CSig> = members.iter().map(|i| self.honest[*i].clone().unwrap()).collect();
+            out.push((format!("hand{members:?}"), self.hand_built(entries), false, mask == full_mask));
+        }
+        // hand-made cross-signature collisions: two parties, both claiming only one common index
+        for p in 0..n {
+            for q in p + 1..n {
+                if let (Some(a), Some(b)) = (&self.honest[p], &self.honest[q])
+                    && let Some(common) = a.indexes.iter().find(|i| b.indexes.contains(i))
+                {
+                    let mut ea = a.clone();
+                    let mut eb = b.clone();
+                    ea.indexes = vec![*common];
+                    eb.indexes = vec![*common];
+                    out.push((format!("collide[{p},{q}]@{common}"), self.hand_built(vec![ea, eb]), false, false));
+                }
+            }
+        }
+        out
+    }
+
+    /// every single structural mutation of `c`
+    fn mutations(&self, c: &Cand) -> Vec<(String, Cand)> {
+        let mut out: Vec<(String, Cand)> = vec![];
+        let w = self.w;
+        let m = w.params.m;
+        let n = w.parties.len() as u64;
+        let msgp = w.msgp(&self.msg);
+        let mut push = |name: String, v: Cand| out.push((name, v));
+        for (p, e) in c.sigs.iter().enumerate() {
+            let with = |f: &dyn Fn(&mut CSig)| {
+                let mut v = c.clone();
+                f(&mut v.sigs[p]);
+                v
+            };
+            let won = {
+                let full = self.won_by_key(&e.vk);
+                if full.is_empty() { e.indexes.clone() } else { full }
+            };
+            // --- index sets
+            let mut sets: Vec<Vec<u64>> = vec![];
+            if won.len() <= 4 {
+                for mask in 0u32..(1 << won.len()) {
+                    sets.push(won.iter().enumerate().filter(|(i, _)| mask & (1 << i) != 0).map(|(_, x)| *x).collect());
+                }
+            } else {
+                for l in 0..=won.len() {
+                    sets.push(won[..l].to_vec());
+                }
+                sets.push(won[won.len() / 2..].to_vec());
+            }
+            for s in sets {
+                if s != e.indexes {
+                    let s2 = s.clone();
+                    push(format!("sig{p}.indexes={s:?}"), with(&move |x| x.indexes = s2.clone()));
+                }
+            }
+            let mut extra: Vec<(String, u64)> = vec![];
+            if let Some(lost) = (0..m).find(|i| !won.contains(i)) {
+                extra.push(("lost".into(), lost));
+            }
+            extra.push(("m-1".into(), m - 1));
+            extra.push(("m".into(), m));
+            extra.push(("m+1".into(), m + 1));
+            extra.push(("u64max".into(), u64::MAX));
+            for (nm, v) in extra {
+                if !e.indexes.contains(&v) {
+                    push(format!("sig{p}.indexes+={nm}"), with(&move |x| x.indexes.push(v)));
+                    if !e.indexes.is_empty() {
+                        push(format!("sig{p}.indexes.last={nm}"), with(&move |x| *x.indexes.last_mut().unwrap() = v));
+                    }
+                }
+            }
+            if let Some(&f) = e.indexes.first() {
+                push(format!("sig{p}.indexes+=dup({f})"), with(&move |x| x.indexes.push(f)));
+                let k = w.params.k as usize;
+                push(format!("sig{p}.indexes=[{f};{k}]"), with(&move |x| x.indexes = vec![f; k]));
+            }
+            for (q, o) in c.sigs.iter().enumerate() {
+                if q != p
+                    && let Some(&f) = o.indexes.first()
+                    && !e.indexes.contains(&f)
+                {
+                    push(format!("sig{p}.indexes+=first-of-sig{q}({f})"), with(&move |x| x.indexes.push(f)));
+                }
+            }
+            // --- signer slot label
+            let mut slots: Vec<u64> = (0..n).collect();
+            slots.extend([n, n + 1, u64::MAX]);
+            for s in slots {
+                if s != e.slot {
+                    push(format!("sig{p}.slot={s}"), with(&move |x| x.slot = s));
+                }
+            }
+            // --- claimed (key, stake)
+            for (q, party) in w.parties.iter().enumerate() {
+                if party.vk != e.vk || party.stake != e.stake {
+                    let (vk, st) = (party.vk.clone(), party.stake);
+                    push(format!("sig{p}.party=party{q}"), with(&move |x| {
+                        x.vk = vk.clone();
+                        x.stake = st;
+                    }));
+                }
+            }
+            if e.stake < u64::MAX {
+                push(format!("sig{p}.stake+1"), with(&|x| x.stake += 1));
+            }
+            if e.stake != w.total {
+                let t = w.total;
+                push(format!("sig{p}.stake=total"), with(&move |x| x.stake = t));
+            }
+            // an adversary's own fresh key with a genuine signature by it
+            let adv_sigma = self.adv.sign(&msgp);
+            for (nm, st) in [("total", w.total), ("same", e.stake)] {
+                let wins = self.r.winning(&w.view, &msgp, &adv_sigma, st);
+                let mut variants = vec![("all", (0..m).collect::<Vec<u64>>())];
+                if !wins.is_empty() && wins.len() as u64 != m {
+                    variants.push(("won", wins));
+                }
+                for (vn, idx) in variants {
+                    let (vk, sg) = (self.adv.vk.clone(), adv_sigma.clone());
+                    push(format!("sig{p}=adversary-key(stake={nm},indexes={vn})"), with(&move |x| {
+                        x.vk = vk.clone();
+                        x.sigma = sg.clone();
+                        x.stake = st;
+                        x.indexes = idx.clone();
+                    }));
+                }
+            }
+            // --- sigma
+            for (q, o) in self.honest.iter().enumerate() {
+                if let Some(o) = o
+                    && o.sigma != e.sigma
+                {
+                    let sg = o.sigma.clone();
+                    push(format!("sig{p}.sigma=party{q}"), with(&move |x| x.sigma = sg.clone()));
+                }
+            }
+            if let Some(i) = w.parties.iter().position(|party| party.vk == e.vk) {
+                let sg = w.raw_sign(i, &w.msgp(&self.other));
+                push(format!("sig{p}.sigma=own-over-other-message"), with(&move |x| x.sigma = sg.clone()));
+                let sg = w.raw_sign(i, &self.msg);
+                push(format!("sig{p}.sigma=own-over-bare-message"), with(&move |x| x.sigma = sg.clone()));
+            }
+            let mut inf = vec![0u8; 48];
+            inf[0] = 0xc0;
+            push(format!("sig{p}.sigma=identity"), with(&move |x| x.sigma = inf.clone()));
+            if let Some(sg) = sigma_shift(&e.sigma, 1) {
+                push(format!("sig{p}.sigma+=G"), with(&move |x| x.sigma = sg.clone()));
+            }
+        }
+        // --- batch path
+        let z = h256(&[&[0u8]]);
+        for i in 0..c.path_values.len() {
+            let mut v = c.clone();
+            v.path_values.remove(i);
+            push(format!("path.values.drop({i})"), v);
+            let mut v = c.clone();
+            let d = v.path_values[i].clone();
+            v.path_values.insert(i, d);
+            push(format!("path.values.dup({i})"), v);
+            let mut v = c.clone();
+            v.path_values[i] = vec![0u8; 32];
+            push(format!("path.values[{i}]=zeros"), v);
+            let mut v = c.clone();
+            v.path_values[i] = z.clone();
+            push(format!("path.values[{i}]=H(0)"), v);
+            let mut v = c.clone();
+            v.path_values[i].truncate(31);
+            push(format!("path.values[{i}].truncate"), v);
+            if i + 1 < c.path_values.len() {
+                let mut v = c.clone();
+                v.path_values.swap(i, i + 1);
+                push(format!("path.values.swap({i})"), v);
+            }
+        }
+        if !c.path_values.is_empty() {
+            let mut v = c.clone();
+            v.path_values.clear();
+            push("path.values=[]".into(), v);
+        }
+        {
+            let mut v = c.clone();
+            v.path_values.push(z.clone());
+            push("path.values+=H(0)".into(), v);
+        }
+        if !c.path_indices.is_empty() {
+            let mut v = c.clone();
+            v.path_indices.clear();
+            push("path.indices=[]".into(), v);
+            let mut v = c.clone();
+            v.path_indices.reverse();
+            if v != *c {
+                push("path.indices.reverse".into(), v);
+            }
+        }
+        for i in 0..c.path_indices.len() {
+            let cur = c.path_indices[i];
+            let mut vals = vec![cur.wrapping_add(1), n, u64::MAX];
+            if cur > 0 {
+                vals.push(cur - 1);
+            }
+            vals.sort();
+            vals.dedup();
+            for x in vals {
+                if x != cur {
+                    let mut v = c.clone();
+                    v.path_indices[i] = x;
+                    push(format!("path.indices[{i}]={x}"), v);
+                }
+            }
+            let mut v = c.clone();
+            v.path_indices.insert(i, cur);
+            push(format!("path.indices.dup({i})"), v);
+            let mut v = c.clone();
+            v.path_indices.remove(i);
+            push(format!("path.indices.drop({i})"), v);
+        }
+        // --- signature list
+        for p in 0..c.sigs.len() {
+            if p + 1 < c.sigs.len() {
+                let mut v = c.clone();
+                v.sigs.swap(p, p + 1);
+                push(format!("sigs.swap({p})"), v);
+            }
+            for with_path in [false, true] {
+                let mut v = c.clone();
+                let d = v.sigs[p].clone();
+                v.sigs.insert(p, d);
+                if with_path && p < v.path_indices.len() {
+                    let x = v.path_indices[p];
+                    v.path_indices.insert(p, x);
+                }
+                push(format!("sigs.dup({p},path={with_path})"), v);
+                let mut v = c.clone();
+                v.sigs.remove(p);
+                if with_path && p < v.path_indices.len() {
+                    v.path_indices.remove(p);
+                }
+                push(format!("sigs.drop({p},path={with_path})"), v);
+                if c.sigs[p].indexes.len() >= 2 {
+                    let mut v = c.clone();
+                    let h = v.sigs[p].indexes.len() / 2;
+                    let mut second = v.sigs[p].clone();
+                    second.indexes = v.sigs[p].indexes[h..].to_vec();
+                    v.sigs[p].indexes.truncate(h);
+                    v.sigs.insert(p + 1, second);
+                    if with_path && p < v.path_indices.len() {
+                        let x = v.path_indices[p];
+                        v.path_indices.insert(p, x);
+                    }
+                    push(format!("sigs.split({p},path={with_path})"), v);
+                }
+            }
+        }
+        if !c.sigs.is_empty() {
+            let mut v = c.clone();
+            v.sigs.clear();
+            push("sigs=[]".into(), v);
+        }
+        out
+    }
+
+    /// single-signature candidates: (name, value, claimed key, claimed stake)
+    fn single_candidates(&self) -> Vec<(String, CSig)> {
+        let mut out = vec![];
+        for (i, h) in self.honest.iter().enumerate() {
+            let Some(h) = h else { continue };
+            out.push((format!("honest{i}"), h.clone()));
+            // reuse the per-entry alphabet through a one-entry aggregate
+            let one = Cand { sigs: vec![h.clone()], path_values: vec![], path_indices: vec![] };
+            for (name, c) in self.mutations(&one) {
+                // the (key, stake) handed to SingleSignature::verify comes from the verifier's own view of the
+                // registration, it is not attacker-controlled: only registered pairs are in scope
+                if name.starts_with("sig0") && c.sigs.len() == 1 && self.w.is_registered(&c.sigs[0].vk, c.sigs[0].stake) {
+                    out.push((format!("honest{i}:{name}"), c.sigs[0].clone()));
+                }
+            }
+        }
+        out
+    }
+}
+
+// ---------------------------------------------------------------------------------------------
+// evaluation
+// ---------------------------------------------------------------------------------------------
+
+struct Case {
+    world: usize,
+    msg_is_a: bool,
+    depth: usize,
+    honest: bool,
+    name: String,
+    cand: Cand,
+}
+
+fn case_json(w: &World, msg_is_a: bool, name: &str, c: &Cand) -> Value {
+    json!({"kind": "aggregate", "cfg": w.cfg.to_json(), "message": if msg_is_a {"A"} else {"B"}, "mutation": name, "candidate": c.to_json(), "summary": c.short()})
+}
+
+/// decode one candidate in its wire forms; returns (form name, decoded value)
+fn decode_forms(c: &Cand, rep: &mut Report, all_forms: bool) -> Vec<(&'static str, AggregateSignature<D>)> {
+    let mut forms = vec![];
+    match decode_aggregate_json(c) {
+        Ok(a) => {
+            if all_forms {
+                match a.to_bytes() {
+                    Ok(b) => match decode_aggregate_bytes(&b) {
+                        Ok(a2) => forms.push(("cbor", a2)),
+                        Err(_) => rep.add_extra("cbor_reencoding_not_decodable", 1),
+                    },
+                    Err(_) => rep.add_extra("cbor_encoding_failed", 1),
+                }
+            }
+            forms.insert(0, ("json", a));
+        }
+        Err(_) => rep.add_extra("undecodable_json", 1),
+    }
+    if all_forms && let Some(b) = c.to_legacy_bytes() {
+        match decode_aggregate_bytes(&b) {
+            Ok(a3) => forms.push(("legacy", a3)),
+            Err(_) => rep.add_extra("undecodable_legacy", 1),
+        }
+    }
+    forms
+}
+
+struct Verdicts {
+    /// accepted in at least one form, and the statement holds for it
+    accepted: bool,
+    label: String,
+}
+
+fn eval_case(w: &World, r: &Reference, msg: &[u8], case: &Case, rep: &mut Report, all_forms: bool) -> Verdicts {
+    let mut forms = decode_forms(&case.cand, rep, all_forms);
+    let mut accepted = false;
+    let mut label = String::from("undecodable");
+    let mut verdicts: Vec<(&str, bool)> = vec![];
+    let mut i = 0;
+    while i < forms.len() {
+        let (form, a) = (&forms[i].0, &forms[i].1);
+        let form: &'static str = form;
+        rep.eval();
+        let decoded = aggregate_to_cand(a).expect("decoded value has a JSON form");
+        if decoded != case.cand {
+            rep.add_extra("decoded_value_differs_from_wire_model", 1);
+        }
+        rep.nontrivial(&(w.cfg.label(), case.msg_is_a, &decoded));
+        let res = w.verify(a, msg);
+        verdicts.push((form, res.is_ok()));
+        match &res {
+            Ok(()) => {
+                accepted = true;
+                label = "accepted".into();
+                match r.aggregate(&w.view, msg, &decoded) {
+                    Judge::Holds => rep.outcome("accepted"),
+                    Judge::CannotJudge => rep.outcome("accepted:draw-inside-negligible-band(not judged)"),
+                    Judge::Fails(key, why) => {
+                        rep.outcome("accepted:UNSOUND");
+                        rep.violation(
+                            &format!("C01/{key}"),
+                            format!(
+                                "AggregateSignature::verify accepted ({form} form, cfg {}, mutation '{}') although {why}",
+                                w.cfg.label(),
+                                case.name
+                            ),
+                            case_json(w, case.msg_is_a, &case.name, &decoded),
+                        );
+                    }
+                }
+            }
+            Err(e) => {
+                let l = reject_label(e);
+                if l == "panic" {
+                    rep.add_extra("panics_observed", 1);
+                }
+                if !accepted {
+                    label = format!("rejected:{l}");
+                }
+                rep.outcome(&format!("rejected:{l}"));
+                if case.honest {
+                    rep.violation(
+                        "C01/honest-aggregate-rejected",
+                        format!("the clerk's own aggregate is rejected in {form} form (cfg {}, {}): {e}", w.cfg.label(), case.name),
+                        case_json(w, case.msg_is_a, &case.name, &decoded),
+                    );
+                }
+            }
+        }
+        // rejected deep candidates are judged in their JSON form only; accepted ones in all forms
+        if !all_forms && res.is_ok() && forms.len() == 1 {
+            let more = decode_forms(&case.cand, rep, true);
+            forms.extend(more.into_iter().filter(|(f, _)| *f != "json"));
+        }
+        i += 1;
+    }
+    if verdicts.iter().any(|v| v.1) && verdicts.iter().any(|v| !v.1) {
+        rep.add_extra("verdict_differs_between_wire_forms", 1);
+    }
+    Verdicts { accepted, label }
+}
+
+fn eval_single(w: &World, r: &Reference, msg: &[u8], msg_is_a: bool, name: &str, s: &CSig, rep: &mut Report) {
+    let Ok(vk) = VerificationKeyForConcatenation::from_bytes(&s.vk) else {
+        rep.add_extra("single_claimed_key_undecodable", 1);
+        return;
+    };
+    let mut forms: Vec<(&str, SingleSignature)> = vec![];
+    match decode_single_json(s) {
+        Ok(a) => {
+            if let Ok(b) = a.to_bytes()
+                && let Ok(a2) = decode_single_bytes(&b)
+            {
+                forms.push(("cbor", a2));
+            }
+            forms.insert(0, ("json", a));
+        }
+        Err(_) => rep.add_extra("undecodable_json", 1),
+    }
+    match decode_single_bytes(&s.single_legacy()) {
+        Ok(a) => forms.push(("legacy", a)),
+        Err(_) => rep.add_extra("undecodable_legacy", 1),
+    }
+    for (form, a) in forms {
+        rep.eval();
+        let decoded = single_to_csig(&a, &s.vk, s.stake).expect("json of single signature");
+        rep.nontrivial(&("single", w.cfg.label(), msg_is_a, &decoded));
+        let res = match mc_core::catch(|| a.verify::<D>(&w.params, &vk, &s.stake, &w.avk, msg)) {
+            Ok(Ok(())) => Ok(()),
+            Ok(Err(e)) => Err(format!("{e:#}")),
+            Err(p) => Err(format!("panic: {p}")),
+        };
+        match res {
+            Ok(()) => match r.single(&w.view, msg, &decoded) {
+                Judge::Holds => {
+                    rep.outcome("single:accepted");
+                }
+                Judge::CannotJudge => rep.outcome("single:accepted:draw-inside-negligible-band(not judged)"),
+                Judge::Fails(key, why) => {
+                    rep.outcome("single:accepted:UNSOUND");
+                    rep.violation(
+                        &format!("C01/{key}"),
+                        format!("SingleSignature::verify accepted ({form} form, cfg {}, '{name}') although {why}", w.cfg.label()),
+                        json!({"kind": "single", "cfg": w.cfg.to_json(), "message": if msg_is_a {"A"} else {"B"}, "mutation": name,
+                               "signature": decoded.single_json(), "vk": hex::encode(&decoded.vk), "stake": decoded.stake.to_string(), "summary": decoded.short()}),
+                    );
+                }
+            },
+            Err(e) => {
+                let l = reject_label(&e);
+                rep.outcome(&format!("single:rejected:{l}"));
+                if name.starts_with("honest") && !name.contains(':') {
+                    rep.violation(
+                        "C01/honest-single-signature-rejected",
+                        format!("a registered signer's own signature is rejected ({form} form, cfg {}): {e}", w.cfg.label()),
+                        json!({"kind": "single", "cfg": w.cfg.to_json(), "message": if msg_is_a {"A"} else {"B"}, "mutation": name,
+                               "signature": decoded.single_json(), "vk": hex::encode(&decoded.vk), "stake": decoded.stake.to_string()}),
+                    );
+                }
+            }
+        }
+    }
+}
+
+// ---------------------------------------------------------------------------------------------
+// batches
+// ---------------------------------------------------------------------------------------------
+
+#[derive(Clone)]
+struct Member {
+    world: usize,
+    msg_is_a: bool,
+    name: String,
+    cand: Cand,
+    /// built by shifting a sigma by ±j·G (input class of the cross-member cancellation)
+    shifted: bool,
+    /// accepted when verified alone (pooling class)
+    accepted: bool,
+}
+
+/// sigma-shifted variants of a one-entry accepted aggregate: sigma ± G with the index set the
+/// shifted sigma wins (an adversary is free to claim any indices)
+fn shifted_members(w: &World, r: &Reference, msg: &[u8], world: usize, msg_is_a: bool, name: &str, c: &Cand) -> Vec<Member> {
+    let mut out = vec![];
+    if c.sigs.len() != 1 {
+        return out;
+    }
+    let msgp = w.msgp(msg);
+    for j in [1i64, -1, 2, -2] {
+        let Some(sg) = sigma_shift(&c.sigs[0].sigma, j) else { continue };
+        let wins = r.winning(&w.view, &msgp, &sg, c.sigs[0].stake);
+        if (wins.len() as u64) < w.params.k {
+            continue;
+        }
+        let mut v = c.clone();
+        v.sigs[0].sigma = sg;
+        v.sigs[0].indexes = wins;
+        out.push(Member { world, msg_is_a, name: format!("{name}:sigma{j:+}G"), cand: v, shifted: true, accepted: false });
+    }
+    out
+}
+
+fn eval_batch(worlds: &[World], r: &Reference, members: &[&Member], rep: &mut Report) {
+    let (ma, mb) = messages();
+    let mut sigs = vec![];
+    let mut msgs = vec![];
+    let mut avks = vec![];
+    let mut params: Vec<Parameters> = vec![];
+    for m in members {
+        let Ok(a) = decode_aggregate_json(&m.cand) else { return };
+        // batch members travel as CBOR bytes
+        let a = match a.to_bytes().ok().and_then(|b| decode_aggregate_bytes(&b).ok()) {
+            Some(a2) => a2,
+            None => a,
+        };
+        sigs.push(a);
+        msgs.push(if m.msg_is_a { ma.clone() } else { mb.clone() });
+        avks.push(worlds[m.world].avk.clone());
+        params.push(worlds[m.world].params);
+    }
+    rep.eval();
+    let none_v = vec![None; members.len()];
+    let none_g = vec![None; members.len()];
+    let res = match mc_core::catch(|| AggregateSignature::<D>::batch_verify(&sigs, &msgs, &avks, &params, &none_v, &none_g)) {
+        Ok(Ok(())) => Ok(()),
+        Ok(Err(e)) => Err(format!("{e:#}")),
+        Err(p) => Err(format!("panic: {p}")),
+    };
+    let canon: Vec<(String, bool, &Cand)> = members.iter().map(|m| (worlds[m.world].cfg.label(), m.msg_is_a, &m.cand)).collect();
+    rep.nontrivial(&("batch", &canon));
+    match res {
+        Err(e) => rep.outcome(&format!("batch:rejected:{}", reject_label(&e))),
+        Ok(()) => {
+            let mut bad = vec![];
+            let mut only_bls = true;
+            for (i, m) in members.iter().enumerate() {
+                let w = &worlds[m.world];
+                let alone = w.verify(&sigs[i], &msgs[i]);
+                let judged = r.aggregate(&w.view, &msgs[i], &aggregate_to_cand(&sigs[i]).unwrap());
+                if let Err(e) = &alone {
+                    only_bls &= reject_label(e) == "bls-invalid";
+                    bad.push(format!("member {i} ('{}', message {}, cfg {}) is rejected alone: {}", m.name, if m.msg_is_a {"A"} else {"B"}, w.cfg.label(), reject_label(e)));
+                } else if let Judge::Fails(_, why) = judged {
+                    only_bls = false;
+                    bad.push(format!("member {i} ('{}', cfg {}) does not satisfy the statement: {why}", m.name, w.cfg.label()));
+                }
+            }
+            if bad.is_empty() {
+                rep.outcome("batch:accepted");
+            } else {
+                rep.outcome("batch:accepted:UNSOUND");
+                // classify by the failing call site: members that pass every per-member check and fail only the
+                // final pairing check when alone point at the summed pairing check of the batch; anything else
+                // means a per-member check was skipped
+                let key = if only_bls { "C01/batch-checks-only-the-sum-of-member-signatures" } else { "C01/batch-accepts-member-rejected-alone" };
+                rep.violation(
+                    key,
+                    format!("AggregateSignature::batch_verify accepted a batch of {} although {}", members.len(), bad.join("; ")),
+                    json!({"kind": "batch", "members": members.iter().map(|m| json!({
+                        "cfg": worlds[m.world].cfg.to_json(), "message": if m.msg_is_a {"A"} else {"B"}, "name": m.name,
+                        "candidate": m.cand.to_json(), "summary": m.cand.short()})).collect::<Vec<_>>()}),
+                );
+            }
+        }
+    }
+}
+
+// ---------------------------------------------------------------------------------------------
+// driver
+// ---------------------------------------------------------------------------------------------
+
+pub fn configs(tier: Tier) -> Vec<Cfg> {
+    let mut out = vec![];
+    for n in 1..=3usize {
+        for split in ["equal", "skew1000", "skew2p40"] {
+            if n == 1 && split != "equal" {
+                continue;
+            }
+            for (m, k, phi_f) in [(4u64, 2u64, 1.0f64), (6, 3, 0.8), (8, 3, 0.5)] {
+                out.push(Cfg { n, split, stakes: stakes_for(n, split), m, k, phi_f, seed: 0 });
+            }
+        }
+    }
+    if tier == Tier::Thorough {
+        for (m, k, phi_f) in [(4u64, 2u64, 1.0f64), (6, 3, 0.8)] {
+            out.push(Cfg { n: 4, split: "equal", stakes: stakes_for(4, "equal"), m, k, phi_f, seed: 0 });
+        }
+    }
+    out
+}
+
+/// choose the first key seed for which the full honest set aggregates for both messages
+pub fn settle_seed(cfg: &Cfg) -> (Cfg, World) {
+    let (ma, mb) = messages();
+    for seed in 1u8..=40 {
+        let mut c = cfg.clone();
+        c.seed = seed;
+        let w = World::build(&c);
+        let ok = [&ma, &mb].iter().all(|msg| {
+            let sigs: Vec<SingleSignature> = (0..c.n).filter_map(|i| w.signers[i].create_single_signature(msg).ok()).collect();
+            w.aggregate(&sigs, msg).is_ok()
+        });
+        if ok {
+            return (c, w);
+        }
+    }
+    panic!("no seed gives an honest quorum for {}", cfg.label());
+}
+
+fn replay(ctx: &Ctx, rep: &mut Report, r: &Reference) {
+    let v = mc_core::load_replay(ctx.replay.as_ref().unwrap());
+    let (ma, mb) = messages();
+    let pick = |m: &Value| if m.as_str() == Some("B") { (mb.clone(), false) } else { (ma.clone(), true) };
+    match v["kind"].as_str() {
+        Some("aggregate") => {
+            let cfg = Cfg::from_json(&v["cfg"]).expect("cfg");
+            let w = World::build(&cfg);
+            let (msg, is_a) = pick(&v["message"]);
+            let cand = Cand::from_json(&v["candidate"]).expect("candidate");
+            let case = Case { world: 0, msg_is_a: is_a, depth: 0, honest: false, name: v["mutation"].as_str().unwrap_or("").into(), cand };
+            eval_case(&w, r, &msg, &case, rep, true);
+        }
+        Some("single") => {
+            let cfg = Cfg::from_json(&v["cfg"]).expect("cfg");
+            let w = World::build(&cfg);
+            let (msg, is_a) = pick(&v["message"]);
+            let sj = &v["signature"];
+            let s = CSig {
+                sigma: sj["sigma"].as_array().unwrap().iter().map(|x| x.as_u64().unwrap() as u8).collect(),
+                indexes: sj["indexes"].as_array().unwrap().iter().map(|x| x.as_u64().unwrap()).collect(),
+                slot: sj["signer_index"].as_u64().unwrap(),
+                vk: hex::decode(v["vk"].as_str().unwrap()).unwrap(),
+                stake: v["stake"].as_str().unwrap().parse().unwrap(),
+            };
+            eval_single(&w, r, &msg, is_a, v["mutation"].as_str().unwrap_or(""), &s, rep);
+        }
+        Some("batch") => {
+            let mut worlds = vec![];
+            let mut members = vec![];
+            for m in v["members"].as_array().unwrap() {
+                let cfg = Cfg::from_json(&m["cfg"]).expect("cfg");
+                worlds.push(World::build(&cfg));
+                let name = m["name"].as_str().unwrap_or("").to_string();
+                members.push(Member {
+                    world: worlds.len() - 1,
+                    msg_is_a: m["message"].as_str() != Some("B"),
+                    shifted: name.contains("sigma+") || name.contains("sigma-"),
+                    accepted: false,
+                    name,
+                    cand: Cand::from_json(&m["candidate"]).expect("candidate"),
+                });
+            }
+            let refs: Vec<&Member> = members.iter().collect();
+            eval_batch(&worlds, r, &refs, rep);
+        }
+        _ => rep.machinery_error("replay file has no known kind".into()),
+    }
+    rep.nontrivial(&0);
+    rep.nontrivial(&1);
+}
+
+pub fn run(ctx: &Ctx) -> ! {
+    let mut rep = Report::new(
+        "exploration",
+        "every value obtained from a base aggregate (the clerk's aggregate of every signer subset, hand-built un-deduplicated \
+         aggregates of every signer subset, hand-made two-party index collisions) by at most d structural mutations (index sets, \
+         boundary indices, slot labels, claimed key/stake incl. an adversary key with a genuine signature, sigma substitutions, \
+         every batch-path value/index edit, list permutation/duplication/split/drop) is decoded from JSON text, versioned CBOR \
+         bytes and the legacy byte layout and verified; single signatures likewise; all ordered pairs/triples of a pool of \
+         accepted, rejected and sigma-shifted aggregates over several (message, key) contexts are batch-verified. A case is \
+         non-trivial when it decodes and reaches the verifier; distinct = distinct decoded values per (configuration, message)",
+    );
+    let r = Reference::new();
+    if ctx.replay.is_some() {
+        replay(ctx, &mut rep, &r);
+        rep.finish(ctx);
+    }
+    let depth = ctx.tier.pick(1usize, 2usize);
+    let threads = ctx.threads();
+    let (ma, mb) = messages();
+
+    // worlds: two per configuration (the second, with other keys, is the "different key" context of batches)
+    let cfgs = configs(ctx.tier);
+    let built: Vec<(World, World)> = par_map(&cfgs, threads, |_, c| {
+        let (c1, w1) = settle_seed(c);
+        let mut c2 = c.clone();
+        c2.seed = c1.seed + 40;
+        let w2 = loop {
+            let w = World::build(&c2);
+            let sigs: Vec<SingleSignature> = (0..c2.n).filter_map(|i| w.signers[i].create_single_signature(&ma).ok()).collect();
+            if w.aggregate(&sigs, &ma).is_ok() {
+                break w;
+            }
+            c2.seed += 1;
+        };
+        (w1, w2)
+    });
+    let mut worlds: Vec<World> = vec![];
+    for (a, b) in built {
+        worlds.push(a);
+        worlds.push(b);
+    }
+    for w in &worlds {
+        // the root the aggregate key commits to must be the root of the registration the harness built
+        let t = MiniTree::new(w);
+        if t.root() != w.root.as_slice() {
+            rep.machinery_error(format!("aggregate key of {} does not commit to the independently computed Merkle root", w.cfg.label()));
+        }
+    }
+    rep.extra("configurations", json!(cfgs.len()));
+    rep.extra("max_mutation_depth", json!(depth));
+    rep.extra(
+        "bounds",
+        json!({"parties": if ctx.tier == Tier::Thorough {"1..4"} else {"1..3"}, "stake_splits": ["equal", "1:1000", "1:2^40"],
+               "parameters": ["m4 k2 phi1.0", "m6 k3 phi0.8", "m8 k3 phi0.5"], "messages": 2, "batch_sizes": if ctx.tier == Tier::Thorough {"2,3"} else {"2"}}),
+    );
+
+    // ---- stage 1: generate the cases of every (primary world, message)
+    let units: Vec<(usize, bool)> = (0..cfgs.len()).flat_map(|i| [(2 * i, true), (2 * i, false)]).collect();
+    let generated: Vec<Vec<Case>> = par_map(&units, threads, |_, (wi, is_a)| {
+        let w = &worlds[*wi];
+        let (msg, other) = if *is_a { (&ma, &mb) } else { (&mb, &ma) };
+        let mc = MCtx::new(w, &r, msg, other);
+        let mut seen: BTreeSet<u64> = BTreeSet::new();
+        let mut cases = vec![];
+        let bases = mc.bases();
+        for (bname, base, honest, _) in &bases {
+            if seen.insert(mc_core::hash64(base)) || *honest {
+                cases.push(Case { world: *wi, msg_is_a: *is_a, depth: 0, honest: *honest, name: bname.clone(), cand: base.clone() });
+            }
+        }
+        for (bname, base, _, deep_base) in bases.iter() {
+            let first: Vec<(String, Cand)> = mc.mutations(base);
+            for (n1, c1) in &first {
+                if seen.insert(mc_core::hash64(c1)) {
+                    cases.push(Case { world: *wi, msg_is_a: *is_a, depth: 1, honest: false, name: format!("{bname}/{n1}"), cand: c1.clone() });
+                }
+            }
+            // two simultaneous deviations: from the clerk's aggregate of all signers and the hand-built full aggregate
+            if depth >= 2 && *deep_base {
+                for (n1, c1) in &first {
+                    for (n2, c2) in mc.mutations(c1) {
+                        if seen.insert(mc_core::hash64(&c2)) {
+                            cases.push(Case { world: *wi, msg_is_a: *is_a, depth: 2, honest: false, name: format!("{bname}/{n1}/{n2}"), cand: c2 });
+                        }
+                    }
+                }
+            }
+        }
+        cases
+    });
+    let cases: Vec<Case> = generated.into_iter().flatten().collect();
+    rep.extra("aggregate_candidates", json!(cases.len()));
+    rep.extra("aggregate_candidates_by_depth", json!((0..=2).map(|d| cases.iter().filter(|c| c.depth == d).count()).collect::<Vec<_>>()));
+
+    // ---- stage 2: verify every case
+    let chunks: Vec<&[Case]> = cases.chunks(64).collect();
+    let parts: Vec<(Report, Vec<(usize, String)>)> = par_map(&chunks, threads, |ci, chunk| {
+        let mut rp = Report::new("exploration", "");
+        let mut labels = vec![];
+        for (j, case) in chunk.iter().enumerate() {
+            let w = &worlds[case.world];
+            let msg = if case.msg_is_a { &ma } else { &mb };
+            let v = eval_case(w, &r, msg, case, &mut rp, case.depth <= 1);
+            if case.depth <= 1 {
+                labels.push((ci * 64 + j, v.label.clone()));
+            }
+            if rp.samples.len() < 2 && v.accepted && case.depth == 1 {
+                rp.sample(json!({"cfg": w.cfg.label(), "mutation": case.name, "verdict": v.label, "candidate": case.cand.short()}));
+            }
+        }
+        (rp, labels)
+    });
+    let mut labels: BTreeMap<usize, String> = BTreeMap::new();
+    for (p, l) in parts {
+        rep.merge(p);
+        labels.extend(l);
+    }
+
+    // ---- single signatures
+    let singles: Vec<Report> = par_map(&units, threads, |_, (wi, is_a)| {
+        let mut rp = Report::new("exploration", "");
+        let w = &worlds[*wi];
+        let (msg, other) = if *is_a { (&ma, &mb) } else { (&mb, &ma) };
+        let mc = MCtx::new(w, &r, msg, other);
+        let mut seen = BTreeSet::new();
+        for (name, s) in mc.single_candidates() {
+            if seen.insert(mc_core::hash64(&s)) {
+                eval_single(w, &r, msg, *is_a, &name, &s, &mut rp);
+            }
+        }
+        rp
+    });
+    for p in singles {
+        rep.merge(p);
+    }
+
+    // ---- batches: per configuration, pool over the contexts (W1,A) (W1,B) (W2,A)
+    let pool_per_label = ctx.tier.pick(1usize, 1usize);
+    let pools: Vec<Vec<Member>> = (0..cfgs.len())
+        .map(|ci| {
+            let mut pool: Vec<Member> = vec![];
+            for (wi, is_a) in [(2 * ci, true), (2 * ci, false)] {
+                let mut per_label: BTreeMap<String, usize> = BTreeMap::new();
+                let w = &worlds[wi];
+                let msg = if is_a { &ma } else { &mb };
+                let mut shifted_done = false;
+                for (idx, case) in cases.iter().enumerate() {
+                    if case.world != wi || case.msg_is_a != is_a || case.depth > 1 {
+                        continue;
+                    }
+                    let Some(l) = labels.get(&idx) else { continue };
+                    let class = if case.name.ends_with("sigma=own-over-other-message") && case.cand.sigs.len() == 1 {
+                        "swap".to_string()
+                    } else if l == "accepted" { format!("accepted:{}", if case.honest { "honest" } else if case.cand.sigs.len() == 1 { "one-entry" } else { "mutant" }) } else { l.clone() };
+                    let cnt = per_label.entry(class).or_insert(0);
+                    if *cnt < pool_per_label && l != "undecodable" {
+                        *cnt += 1;
+                        pool.push(Member { world: wi, msg_is_a: is_a, name: case.name.clone(), cand: case.cand.clone(), shifted: false, accepted: l == "accepted" });
+                    }
+                    if !shifted_done && l == "accepted" && case.cand.sigs.len() == 1 {
+                        let sh = shifted_members(w, &r, msg, wi, is_a, &case.name, &case.cand);
+                        if sh.len() >= 2 {
+                            pool.extend(sh.into_iter().take(2));
+                            shifted_done = true;
+                        }
+                    }
+                }
+            }
+            // the other-key context: its honest aggregate and a shifted pair of it when it has one entry
+            let w2 = &worlds[2 * ci + 1];
+            let sigs: Vec<SingleSignature> = (0..w2.cfg.n).filter_map(|i| w2.signers[i].create_single_signature(&ma).ok()).collect();
+            if let Ok(a) = w2.aggregate(&sigs, &ma) {
+                let c = aggregate_to_cand(&a).unwrap();
+                pool.extend(shifted_members(w2, &r, &ma, 2 * ci + 1, true, "other-key-honest", &c).into_iter().take(2));
+                pool.push(Member { world: 2 * ci + 1, msg_is_a: true, name: "other-key-honest".into(), cand: c, shifted: false, accepted: true });
+            }
+            pool
+        })
+        .collect();
+    rep.extra("batch_pool_sizes", json!(pools.iter().map(|p| p.len()).collect::<Vec<_>>()));
+    let mut batches: Vec<(usize, Vec<usize>)> = vec![];
+    for (ci, pool) in pools.iter().enumerate() {
+        let n = pool.len();
+        for a in 0..n {
+            for b in 0..n {
+                batches.push((ci, vec![a, b]));
+            }
+        }
+        if ctx.tier == Tier::Thorough {
+            // triples over the accepted / shifted members plus one representative rejected member
+            let small: Vec<usize> = (0..n).filter(|i| pool[*i].shifted || pool[*i].accepted).collect();
+            let rejected: Vec<usize> = (0..n).filter(|i| !small.contains(i)).take(2).collect();
+            let tri: Vec<usize> = small.into_iter().chain(rejected).collect();
+            for &a in &tri {
+                for &b in &tri {
+                    for &c in &tri {
+                        batches.push((ci, vec![a, b, c]));
+                    }
+                }
+            }
+        }
+    }
+    rep.extra("batches", json!(batches.len()));
+    let bchunks: Vec<&[(usize, Vec<usize>)]> = batches.chunks(32).collect();
+    let bparts: Vec<Report> = par_map(&bchunks, threads, |_, chunk| {
+        let mut rp = Report::new("exploration", "");
+        for (ci, ids) in chunk.iter() {
+            let members: Vec<&Member> = ids.iter().map(|i| &pools[*ci][*i]).collect();
+            eval_batch(&worlds, &r, &members, &mut rp);
+        }
+        rp
+    });
+    for p in bparts {
+        rep.merge(p);
+    }
+
+    rep.assume("blst (pairings, subgroup checks), blake2 and num-bigint are trusted: the reference uses them directly");
+    rep.assume("the Merkle root is taken as the commitment of the aggregate key (re-derived with an independent 20-line tree); which (key, stake) pairs are committed is decided by membership in the registration the harness built, not by Merkle paths");
+    rep.assume("lottery draws within 2^-44 of the exact threshold are not judged (the property's numerically negligible band)");
+    rep.assume("the random coefficients of BLS aggregation are the deterministic ones of the enumerated inputs; no claim about adversaries searching for hash collisions");
+    rep.finish(ctx)
 }
